@@ -88,6 +88,8 @@ class C16(HistoryProperty):
                 n["cache"] = "recording"
                 if rng.random() < 0.5 and not n.get("effects"):
                     n["effects"] = rng.randint(1, 2)
+                if rng.random() < 0.25:
+                    n["log_effects"] = [rng.choice([logging.WARNING, logging.ERROR, logging.DEBUG])]
         ops = gen_history(rng, cfg, spec)
         names = [n["id"] for n in spec["nodes"] if n["k"] == "dataset"]
         for op in ops:
@@ -175,7 +177,7 @@ class C16(HistoryProperty):
                             else:
                                 out = w.do({"op": "evaluate", "node": op["node"], "o": o})
                         delta = w.diff_counts(before, w.counts)
-                        n_sink, n_seam = len(sink.records), len([x for x in seam if x[0] == logging.INFO])
+                        n_sink, n_seam, n_seam_all = len(sink.records), len([x for x in seam if x[0] == logging.INFO]), len(seam)
                         for nid in toggled:
                             w.prog.obj[nid].enable_effects()
                         # reference: all switches off (cache disabling mirrored, by context, to keep both caches aligned)
@@ -226,8 +228,8 @@ class C16(HistoryProperty):
                                 res.violate("log-emitted-while-disabled", **info, records=n_sink)
                                 break
                         elif out.ok:
-                            if n_seam != r_seam or n_sink != n_seam:
-                                res.violate("switch-changed-logging", **info, info_requests=n_seam, reference=r_seam, sink=n_sink)
+                            if n_seam != r_seam or (n_sink != n_seam_all and sw["effects"] == "on"):
+                                res.violate("switch-changed-logging", **info, info_requests=n_seam, reference=r_seam, sink=n_sink, all_requests=n_seam_all)
                                 break
                             if not cache_off:
                                 # one INFO request per evaluation not served from the cache: every store was preceded by one
